@@ -3,7 +3,7 @@ import sys, os, re, json, time, subprocess, hashlib, fcntl, glob
 VERIF = os.path.dirname(os.path.dirname(os.path.abspath(__file__)))
 LEAN = os.path.join(VERIF, "lean")
 WORK = os.path.join(VERIF, "work")
-REPO = "/repo"
+REPO = os.environ.get("SFS_REPO", "/repo")   # development only: a scratch copy of the repository (the registered commands use /repo)
 ALLOWED_AXIOMS = {"propext", "Classical.choice", "Quot.sound"}
 FORBIDDEN = re.compile(r"\bsorry\b|\badmit\b|^\s*axiom\s|native_decide|bv_decide|implemented_by|\bunsafe\s|maxHeartbeats\s+0")
 
